@@ -95,12 +95,14 @@ def build(w, s):
     o.time.pattern_timestep = s["Pat"]
     o.time.pattern_start = s["PatStart"]
     o.time.pattern_interpolation = bool(s.get("interp", False))
-    o.time.report_timestep = "ALL" if s.get("all", True) else s["H"]
+    o.time.report_timestep = "ALL" if s.get("all", True) else s.get("RepStep", s["H"])     # RepStep: a multiple of the hydraulic step
     o.time.rule_timestep = s.get("Rs", 360)
     o.time.duration = s["Dur"]
     o.time.start_clocktime = s.get("Start", 0)
     o.hydraulic.demand_multiplier = s["DM"]
     o.hydraulic.demand_model = s["mode"]
+    if s.get("trials"):
+        o.hydraulic.trials = int(s["trials"])
     o.hydraulic.minimum_pressure = s["pmin"]
     o.hydraulic.required_pressure = s["preq"]
     o.hydraulic.pressure_exponent = s["pexp"][0] / s["pexp"][1]
